@@ -144,6 +144,12 @@ func (g *sgen) page(id string, n int) J {
 			items = append(items, iid)
 		}
 	}
+	if n > 0 && g.r.chance(8) {
+		// an element that is neither a typed value nor an IRI: the page cannot be de-duplicated (an error, not a hang)
+		at := g.r.intn(len(items) + 1)
+		junk := []interface{}{5.0, true, J{"zz": 1.0}, "not an iri"}[g.r.intn(4)]
+		items = append(items[:at], append([]interface{}{junk}, items[at:]...)...)
+	}
 	p := J{"type": "OrderedCollectionPage", "id": id}
 	if n > 0 || g.r.bool() {
 		if items == nil {
